@@ -47,6 +47,15 @@ func (w *world) apply(op kernel.Op) {
 		data, _ := liarABI.Pack("setMode", big.NewInt(int64(mode)))
 		w.mempool = append(w.mempool, &intent{kind: "liemode", signer: w.gov, eth: true, to: &liar, data: data, desc: fmt.Sprintf("liar token mode %d", mode)})
 		w.rec.Fault(fmt.Sprintf("exec.token_misbehave.mode%d", mode))
+	case "evidence":
+		// the next block reports that a validator double-signed: the stake slashed from it and its delegators
+		// is "burned" by the staking module, i.e. must arrive at the fee collector
+		if w.c.InBlock || w.c.Height < 2 {
+			return
+		}
+		w.c.NextEvidence = append(w.c.NextEvidence, w.c.DuplicateVoteEvidence(kernel.Mod(op.Arg(0), 2)))
+		w.slashed = true
+		w.rec.Fault("byz.double_sign_evidence")
 	case "votemode":
 		// how the governance actor treats the proposals submitted from now on: 0 votes yes, 1 does not vote
 		// (no quorum), 2 vetoes, 3 votes no
@@ -295,6 +304,7 @@ func (w *world) block(txs []*intent) {
 		return
 	}
 	preVest := w.vestSnapshot()
+	w.evidenceBlock = len(w.c.NextEvidence) > 0
 	w.c.BeginBlock(w.now)
 	if w.c.Halted != "" {
 		w.rec.Violate("C15", "halt", "begin_block", "BeginBlock panicked: %s", w.c.Halted)
